@@ -44,7 +44,7 @@ class Spec(pipeprops.PropSpec):
             "related; non-trivial = some class with >= 2 instances and some non-typing triple")
 
     def gen_cases(self, tier, rnd):
-        n = 9000 if tier == "thorough" else 540
+        n = 27000 if tier == "thorough" else 1800
         cases = []
         for i in range(n):
             r = random.Random(rnd.getrandbits(48))
